@@ -50,9 +50,12 @@ def cells(obj):
                 visit(v, "filter" if role == "awgspecs" else None)
             return
         if isinstance(o, (list, set)):
-            seen[id(o)] = "mut"
+            seen[id(o)] = "filter" if role == "filter" else "mut"
             for x in o:
-                visit(x, None)
+                # a marker pair handed over as a list [t, dur] instead of a tuple: copy() hands it on as it is and no
+                # library method writes into it (the setters replace the pair): frozen, recorded but not judged
+                pair = isinstance(x, list) and len(x) == 2 and all(isinstance(y, ATOMS) for y in x)
+                visit(x, "filter" if pair else None)
             return
         if hasattr(o, "__dict__"):
             seen[id(o)] = "mut"
